@@ -662,6 +662,56 @@ pub fn table() -> Vec<Spec> {
         t.push(s);
     }
 
+    {
+        // ---- third round: the per-word operations of get_and_reset / reset / clone, the struct clone builds,
+        // and the delegations of impl Bitmap for AtomicBitmap / set_addr_range / reset_addr_range
+        let imp = |f: &'static str| Loc::Impl { ty: "AtomicBitmap", tr: None, f };
+        // get_and_reset: the closure `|u| u.fetch_and(0, SeqCst)` applied to every word
+        let mut s = base("AtomicBitmap", "AtomicBitmap", bfile, "get_and_reset_word", "get_and_reset", Loc::Closure { outer: Box::new(imp("get_and_reset")), idx: 0 });
+        s.canon_params = vec!["u"];
+        s.param_tys = vec![("u", Ty::Unit)];
+        s.drop_params = vec!["u"];
+        s.effects = vec!["fetch_and"];
+        t.push(s);
+        // reset: ONE iteration of `for it in self.map.iter() { it.store(0, Release) }`
+        let mut s = bm("reset_word", "reset");
+        s.loop_idx = Some(0);
+        s.vars = vec![("it", Ty::Unit)];
+        s.effects = vec!["store"];
+        s.step = Some(("unit", "unit"));
+        t.push(s);
+        // Clone::clone: the closure `|i| i.load(Acquire)` applied to every word, and the fields of the new bitmap
+        let cl = || Loc::Impl { ty: "AtomicBitmap", tr: Some("Clone"), f: "clone" };
+        let mut s = base("AtomicBitmap", "AtomicBitmap", bfile, "clone_word", "clone", Loc::Closure { outer: Box::new(cl()), idx: 0 });
+        s.canon_params = vec!["i"];
+        s.param_tys = vec![("i", Ty::Unit)];
+        s.drop_params = vec!["i"];
+        s.effects = vec!["load"];
+        t.push(s);
+        let mut s = base("AtomicBitmap", "AtomicBitmap", bfile, "clone_fields", "clone", cl());
+        s.skip_lets = vec!["map"];
+        s.extra = vec![size(), ex("self . byte_size", "byte_size", Ty::Int(64)), psz()];
+        s.fields = vec!["size", "byte_size", "page_size"];
+        t.push(s);
+        // set_addr_range / reset_addr_range: set_reset_addr_range(start_addr, len, true / false)
+        for f in ["set_addr_range", "reset_addr_range"] {
+            let mut s = bm(f, f);
+            s.effects = vec!["set_reset_addr_range"];
+            t.push(s);
+        }
+        // impl Bitmap for AtomicBitmap: mark_dirty => set_addr_range, dirty_at => is_addr_set, slice_at => RefSlice::new(self, offset)
+        let bi = |name: &'static str, f: &'static str| base("AtomicBitmap", "AtomicBitmap", bfile, name, f, Loc::Impl { ty: "AtomicBitmap", tr: Some("Bitmap"), f });
+        let mut s = bi("bm_mark_dirty", "mark_dirty");
+        s.effects = vec!["set_addr_range"];
+        t.push(s);
+        let mut s = bi("bm_dirty_at", "dirty_at");
+        s.extra = vec![size(), psz()];
+        s.fns = vec![load()];
+        t.push(s);
+        let mut s = bi("bm_slice_at", "slice_at");
+        s.ctors = vec![("new", vec![1])];
+        t.push(s);
+    }
     // ------------------------------------------------------------------ src/io.rs
     {
         let ifile = "src/io.rs";
